@@ -193,6 +193,11 @@ def _check_exec(case, st, tier):
     for e in w0.log:
         if e[0] == "invoke" and e[1] not in paths:
             paths.append(e[1])
+    # ... and from the generic executor: a resolver only ONE of the executors reaches is a failure site too
+    _, w1 = H.run_config("blocking-gen", dict(base, overrides={}), None, fast=True)
+    for e in w1.log:
+        if e[0] == "invoke" and e[1] not in paths:
+            paths.append(e[1])
     ndef = len([e for e in w0.log if e[0] == "invoke"])
     for ov in _override_sets(paths, tier):
         scn = dict(base, overrides=ov)
